@@ -232,6 +232,7 @@ DISCR = {
     "ControlFlow": {"Continue": 0, "Break": 1},
     "Ordering": {"Less": -1, "Equal": 0, "Greater": 1},
     "Cow": {"Borrowed": 0, "Owned": 1},
+    "Component": {"Prefix": 0, "RootDir": 1, "CurDir": 2, "ParentDir": 3, "Normal": 4},
 }
 
 
@@ -569,7 +570,12 @@ class Exec:
             blk = f.blocks[bb]
             for st in blk.stmts:
                 self.steps += 1
-                self.exec_stmt(f, frame, st)
+                try:
+                    self.exec_stmt(f, frame, st)
+                except Unsupported as u:
+                    if " [in " not in str(u):
+                        raise Unsupported("%s [in %s bb%d: %s = %s]" % (u, f.name[-60:], bb, getattr(st, "place", ""), getattr(getattr(st, "rv", None), "kind", "")))
+                    raise
             self.steps += 1
             self.stats.steps += 1
             if self.steps > self.max_steps:
@@ -662,6 +668,13 @@ class Exec:
         if m:
             selfn, traitn, meth = base_name(m.group(1)), base_name(m.group(2)), m.group(3)
             f = self.find_impl(meth, traitn, selfn)
+            if f is not None and args:
+                # a receiver that is one of the harness/intrinsic model objects (scripted iterator, sink, ...) is served by its model
+                rv0 = args[0]
+                while isinstance(rv0, Ref):
+                    rv0 = self.read_ref(rv0)
+                if not isinstance(rv0, (Adt, Tup, Int, Bool, Str, Arr, VecV, Closure, Unit, Opaque, FnItem)):
+                    f = None
             if f is None and selfn in self.type_env:
                 f = self.find_impl(meth, traitn, self.type_env[selfn])
             if f is None and args:
@@ -806,7 +819,7 @@ class Exec:
                 if f is not None:
                     cands = self.funcs.get(f.name + "::" + pm.group(4))
             segs = strip_generics(name).split("::") if not cands else []
-            if len(segs) >= 3 and re.fullmatch(r"promoted\[\d+\]", segs[-1]) and not name.startswith("<"):
+            if len(segs) >= 3 and not name.startswith("<"):
                 f = self.find_impl(segs[-2], None, segs[-3])
                 if f is not None:
                     cands = self.funcs.get(f.name + "::" + segs[-1])
@@ -892,6 +905,8 @@ class Exec:
         raise Unsupported("rvalue " + k)
 
     def cast(self, a, ty, kind):
+        while isinstance(a, Ref) and isinstance(self.read_ref(a), (Int, Bool, Ref)):
+            a = self.read_ref(a)      # items of an owning iterator are modelled as references to the elements
         if kind in ("IntToInt",) and isinstance(a, Int) and ty in WIDTH:
             w0 = a.e.size()
             w1 = WIDTH[ty]
@@ -907,6 +922,10 @@ class Exec:
         raise Unsupported("cast %s to %s (%s)" % (a, ty, kind))
 
     def binop(self, op, a, b):
+        while isinstance(a, Ref) and isinstance(self.read_ref(a), (Int, Bool, Ref)):
+            a = self.read_ref(a)
+        while isinstance(b, Ref) and isinstance(self.read_ref(b), (Int, Bool, Ref)):
+            b = self.read_ref(b)
         if isinstance(a, Bool) and isinstance(b, Bool):
             if op == "Eq":
                 return Bool(a.e == b.e)
